@@ -13,7 +13,7 @@ RELATED = {
     "C03": [("C02", ["C02.R2", "C02.R7"])],                                    # replace_use discipline / tail-call rewrite keep def-use and block structure intact
     "C04": [("C06", None), ("C40", None)],                                     # x86-64 native code = selection + allocation + SysV ABI
     "C05": [("C06", None)],                                                    # every target goes through the same allocator
-    "C08": [("C10", ["C10.R6", "C10.R7"])],                                    # a masked or overwritten operand is an encoding that disagrees with what is printed
+    "C08": [("C10", ["C10.R4", "C10.R6", "C10.R7"])],                                    # a masked or overwritten operand is an encoding that disagrees with what is printed
     "C09": [("C10", ["C10.R7"])],
     "C10": [("C13", ["C13.R3"])],                                              # a shrunk relocation must still fit its (smaller) field
     "C11": [("C13", None), ("C10", None)],                                     # relaxation and range gates decide what a reference finally resolves to
